@@ -597,3 +597,15 @@ func focusID(focus, c08, c09 string) string {
 	}
 	return c08
 }
+
+// small aliases used by other worlds of the h2 family
+type simnetPolicy = simnet.ChunkPolicy
+
+const (
+	polAll   = simnet.ChunkAll
+	polBig   = simnet.ChunkBig
+	polMixed = simnet.ChunkMixed
+	polMed   = simnet.ChunkMed
+)
+
+func newNetFor(k *kernel.K) *simnet.Net { return simnet.New(k) }
